@@ -80,8 +80,11 @@ class Gen:
         return self.draw(st.integers(lo, hi))
 
     def b(self, p_true=0.5):
-        # integers shrink towards 0 == False
-        return self.draw(st.integers(0, 99)) < int(p_true * 100)
+        # Bernoulli(p_true).  Hypothesis re-uses small values from other draws, which would
+        # inflate (or deflate) a plain threshold test; scrambling the drawn integer keeps the
+        # rate calibrated while the draw still shrinks (0 -> 5000 -> False for p <= 0.5).
+        x = self.draw(st.integers(0, 9999))
+        return (x * 7919 + 5000) % 10000 < int(p_true * 10000)
 
     def pick(self, xs):
         return xs[self.i(0, len(xs) - 1)]
